@@ -614,6 +614,30 @@ func nullLayout(r *lib.Rng, kind string) json.RawMessage {
 	return lib.MustJSON(m)
 }
 
+// in-place replacement of the entries of a map (the map object stays the same)
+func copyMap[V any](dst, src map[string]V) {
+	if dst == nil {
+		return
+	}
+	for k := range dst {
+		delete(dst, k)
+	}
+	for k, v := range src {
+		dst[k] = v
+	}
+}
+
+// a private copy of a payload value (so that histories do not share maps)
+func roundTripAny(p any) any {
+	switch x := p.(type) {
+	case intoto.Link:
+		return roundTrip(x)
+	case intoto.Layout:
+		return roundTrip(x)
+	}
+	return p
+}
+
 func decodePayload(ps payloadSpec) any {
 	if ps.Kind == "link" {
 		var l intoto.Link
@@ -760,7 +784,7 @@ func freshObject(wrapper string, p any) (intoto.Metadata, error) {
 		}
 		return e, nil
 	}
-	return &intoto.Metablock{Signed: p}, nil
+	return &intoto.Metablock{Signed: roundTripAny(p)}, nil
 }
 
 // the bytes the wrapper prescribes for the current content, computed without the
@@ -1107,7 +1131,7 @@ func runCase(in caseInput) (res runResult) {
 					st = "P"
 				}
 			} else {
-				md = &intoto.Metablock{Signed: p}
+				md = &intoto.Metablock{Signed: roundTripAny(p)}
 			}
 			if st == "T" {
 				curPayload = op.Payload
@@ -1120,6 +1144,36 @@ func runCase(in caseInput) (res runResult) {
 				}
 			}
 			coqOps = append(coqOps, "XSetPayload p"+strconv.Itoa(op.Payload))
+		case "assign":
+			// Metablock only: the exported field Signed of the SAME object (which has just been
+			// verified under every key of the cast) is given other content - by assignment or by
+			// editing its maps / slices in place; signatures stay.  No Load, no Sign in between.
+			mb, ok := md.(*intoto.Metablock)
+			if !ok {
+				panic("assign is a Metablock operation")
+			}
+			target := payloads[op.Payload]
+			done := false
+			if op.Mut == "inplace" {
+				if cl, ok1 := mb.Signed.(intoto.Link); ok1 {
+					if tl, ok2 := target.(intoto.Link); ok2 {
+						copyMap(cl.Materials, tl.Materials)
+						copyMap(cl.Products, tl.Products)
+						copyMap(cl.ByProducts, tl.ByProducts)
+						copyMap(cl.Environment, tl.Environment)
+						if len(cl.Command) == len(tl.Command) {
+							copy(cl.Command, tl.Command)
+						}
+						done = bytes.Equal(canonOfValue(mb.Signed), canonOfValue(target)) && canonOfValue(target) != nil
+					}
+				}
+			}
+			if !done {
+				mb.Signed = roundTripAny(target)
+			}
+			curPayload = op.Payload
+			signedNow, dirty = nil, true
+			coqOps = append(coqOps, "XTamper p"+strconv.Itoa(op.Payload)+" (@nil N)")
 		case "tamper":
 			nv := v
 			body := "(@nil N)"
@@ -1490,7 +1544,7 @@ func prune(in *caseInput) {
 	order := []int{0}
 	for i := range in.Ops {
 		switch in.Ops[i].Kind {
-		case "setpayload", "tamper", "addsig":
+		case "setpayload", "tamper", "addsig", "assign":
 			if in.Ops[i].Mut == "reindent" {
 				continue
 			}
@@ -1614,7 +1668,9 @@ func randomCase(r *lib.Rng, maxLen int) (caseInput, string) {
 				in.Ops = append(in.Ops, opSpec{Kind: "setpayload", Payload: r.Range(0, nv)})
 			}
 		case x < 77:
-			if r.Chance(1, 4) {
+			if in.Wrapper == "legacy" && r.Chance(1, 3) {
+				in.Ops = append(in.Ops, opSpec{Kind: "assign", Payload: r.Range(1, nv), Mut: []string{"", "inplace"}[r.Intn(2)]})
+			} else if r.Chance(1, 4) {
 				in.Ops = append(in.Ops, opSpec{Kind: "tamper", Mut: "reindent"})
 			} else {
 				in.Ops = append(in.Ops, opSpec{Kind: "tamper", Payload: r.Range(1, nv)})
@@ -1834,6 +1890,34 @@ func systematic(r *lib.Rng, all bool) []struct {
 					in.Ops = append(in.Ops, opSpec{Kind: "sign", Key: len(in.Cast) - 1})
 				})
 			})
+		}
+		// content changed IN MEMORY on the object that has just been verified (no Load / Sign in
+		// between): verify; mutate; verify - and: verify; mutate; sign other; verify both.
+		// Metablock: the exported field Signed is assigned / edited in place; Envelope: SetPayload.
+		for _, kind := range []string{"link", "layout"} {
+			kind := kind
+			nvar := ordinaryVariants(mkPayloads(r.Fork(), kind))
+			for f := 1; f <= nvar; f++ {
+				f := f
+				if w == "dsse" && f > 2 {
+					break
+				}
+				for _, mut := range []string{"", "inplace"} {
+					mut := mut
+					if mut == "inplace" && (kind != "link" || w == "dsse") {
+						continue
+					}
+					each(func(names []string) {
+						emit(w, kind, "memory-edit", names, func(in *caseInput) {
+							if w == "dsse" {
+								in.Ops = append(in.Ops, opSpec{Kind: "setpayload", Payload: f}, opSpec{Kind: "sign", Key: 1}, opSpec{Kind: "dumpload"})
+							} else {
+								in.Ops = append(in.Ops, opSpec{Kind: "assign", Payload: f, Mut: mut}, opSpec{Kind: "sign", Key: 1}, opSpec{Kind: "dumpload"})
+							}
+						})
+					})
+				}
+			}
 		}
 		// content that cannot be canonicalised, offered to a SIGNED object: SetPayload (envelope) /
 		// Sign (Metablock, Signed assigned) must fail and change nothing; the object still
